@@ -173,7 +173,8 @@ def run(ck):
 
     # ---------------------------------------------------------------- R5
     am = ck.repo.mod(AB)
-    fn = am.func("disasmEngine._dis_block")
+    from sa.prenorm import with_private_helpers
+    fn = with_private_helpers(am, "disasmEngine._dis_block")
     ok = sched = False
     for n in walk_body(fn):
         if isinstance(n, ast.If) and "self.split_dis" in norm(n.test):
